@@ -98,10 +98,11 @@ class Run:
             json.dump(ev, f, indent=1)
         if self.violations:
             seen = set()
-            for sig, replay, msg in self.violations[:5]:
-                if (sig, replay) in seen:
+            for sig, replay, msg in self.violations:
+                key = re.sub(r"[0-9]+", "#", sig + msg[:80])
+                if key in seen or len(seen) >= 12:
                     continue
-                seen.add((sig, replay))
+                seen.add(key)
                 print("VIOLATION property=%s replay=%s" % (self.prop, replay))
                 print("  what: %s | %s" % (sig, msg))
             return 1
